@@ -1216,6 +1216,7 @@ class Collection(object):
 
         # we can pass in something like {'_id':0, 'field':1}, so pull the id
         # value out and hang on to it until later
+        id_given = '_id' in fields
         id_value = fields.pop('_id', 1)
 
         # filter out fields with projection operators, we will take care of them later
@@ -1230,7 +1231,11 @@ class Collection(object):
         # if we have novalues passed in, make a doc_copy based on the
         # id_value
         if not fields:
-            if id_value == 1:
+            # $slice on its own trims its array and keeps the other fields, as an exclusion
+            # does; it takes an inclusion ('_id': 1 spelled out counts) to leave them out
+            only_slices = bool(projection_operators) and all(
+                list(op) == ['$slice'] for op in projection_operators.values())
+            if id_value == 1 and (id_given or not only_slices):
                 doc_copy = container()
             else:
                 doc_copy = _copy_field(doc, container)
